@@ -256,6 +256,29 @@ Definition raw_alloc (c : cfg) (s : arena) (size align : Z) (r : resp) : arena *
   | h => in_another_chunk c s h size align f r
   end.
 
+(* RawBump::prepare_sized_allocation: like alloc, but the position of the chunk is not moved *)
+Definition chunk_prepare_sized (c : cfg) (m : Z) (ch : chunk) (size align : Z) : option (Z * chunk) :=
+  match chunk_alloc c m ch size align with
+  | Some (p, _) => Some (p, ch)
+  | None => None
+  end.
+
+Definition raw_prepare (c : cfg) (s : arena) (size align : Z) (r : resp) : arena * (Z + err) :=
+  let m := malign s in
+  let f := fun ch => chunk_prepare_sized c m ch size align in
+  match cur s with
+  | Cur i =>
+    match nth_error (chunks s) i with
+    | Some ch =>
+      match f ch with
+      | Some (p, _) => (s, inl p)
+      | None => in_another_chunk c s (cur s) size align f r
+      end
+    | None => (s, inr ErrOverflow)
+    end
+  | h => in_another_chunk c s h size align f r
+  end.
+
 (* alloc_in_another_chunk called directly (grow / shrink slow paths) *)
 Definition raw_alloc_slow (c : cfg) (s : arena) (size align : Z) (r : resp) : arena * (Z + err) :=
   let m := malign s in
@@ -414,6 +437,7 @@ Inductive op :=
 | OReset
 | OResetToStart
 | OReserve (h : nat) (n : Z)
+| OTryErr (h : nat) (mutable : bool) (size align : Z)   (* alloc_try_with(_mut) whose closure returns Err *)
 | OClaim (h : nat)
 | OUnclaim
 | ODrop.
@@ -491,6 +515,27 @@ Definition log_events (s : arena) (es : list event) : arena :=
 Definition zero_fill (s : arena) (start len : Z) : arena :=
   upd_mem s (mem_fill (mem s) start len (fun _ => 0)).
 
+(* RawBump::reset_to *)
+Definition do_reset_to (c : cfg) (s1 : arena) (cp : checkpoint) : arena :=
+  match cp_state cp with
+  | Cur j =>
+    match nth_error (chunks s1) j with
+    | Some ch => upd_cur (upd_chunks s1 (set_nth (chunks s1) j (set_pos ch (cp_addr cp)))) (Cur j)
+    | None => s1
+    end
+  | Unalloc =>
+    (* reset_to_start *)
+    match cur s1 with
+    | Cur _ =>
+      match chunks s1 with
+      | ch :: rest => upd_cur (upd_chunks s1 (reset_chunk c ch :: rest)) (Cur 0)
+      | [] => s1
+      end
+    | _ => s1
+    end
+  | Claimed => s1
+  end.
+
 (* one operation.  `r` = the base allocator's answer to the (at most one) request made. *)
 Definition step (c : cfg) (s0 : arena) (o : op) (r : resp) : arena * out :=
   let s := tick s0 in
@@ -557,23 +602,13 @@ Definition step (c : cfg) (s0 : arena) (o : op) (r : resp) : arena * out :=
     finish s (RCheckpoint (mkCp st addr (epoch s))) false
   | OResetTo h cp =>
     let s1 := upd_live s (filter (fun b => Nat.leb (born b) (cp_epoch cp)) (live s)) in
-    match cp_state cp with
-    | Cur j =>
-      match nth_error (chunks s1) j with
-      | Some ch => finish (upd_cur (upd_chunks s1 (set_nth (chunks s1) j (set_pos ch (cp_addr cp)))) (Cur j)) RUnit false
-      | None => finish s1 RUnit false
-      end
-    | Unalloc =>
-      (* reset_to_start *)
-      match cur s1 with
-      | Cur _ =>
-        match chunks s1 with
-        | ch :: rest => finish (upd_cur (upd_chunks s1 (reset_chunk c ch :: rest)) (Cur 0)) RUnit false
-        | [] => finish s1 RUnit false
-        end
-      | _ => finish s1 RUnit false
-      end
-    | Claimed => finish s1 RUnit false
+    finish (do_reset_to c s1 cp) RUnit false
+  | OTryErr h mutable size align =>
+    if negb (is_top s h) then finish s (RErr ErrClaimed) false else
+    let cp := mkCp (cur s) (match cur_chunk s with Some ch => cpos ch | None => 0 end) (epoch s) in
+    match (if mutable then raw_prepare c s size align r else raw_alloc c s size align r) with
+    | (s1, inl _) => finish (do_reset_to c s1 cp) RUnit false
+    | (s1, inr e) => finish s1 (RErr e) false
     end
   | OReset =>
     let s1 := upd_live s [] in
